@@ -398,6 +398,14 @@ def fixed_shapes():
         s.types.append(TypeDef(kw, ("simple", "REAL")))
         e = Entity("e1", []); e.attrs = [Attr("a1", "e", kw)]; s.entities.append(e)
         out.append(s)
+    # below a diamond: an entity whose (first attribute-bearing) supertype is the bottom of a diamond - the shared ancestor's
+    # attributes arrive once per path inside ONE supertype's attribute list (seeded C18-c2)
+    for nm, e_sup, f_sup in (("belowdiamond", ["d"], ["e"]), ("belowdiamond2", ["marker", "d"], ["marker", "e"])):
+        s = Schema(nm)
+        for n, sup, at in [("a", [], ["id", "nm"]), ("marker", [], []), ("b", ["a"], ["own_b"]), ("c", ["a"], ["own_c"]),
+                           ("d", ["b", "c"], ["own_d"]), ("e", e_sup, ["own_e"]), ("f", f_sup, ["own_f"])]:
+            e = Entity(n, sup); e.attrs = [Attr(x, "e", "INTEGER") for x in at]; s.entities.append(e)
+        out.append(s)
     # an escaped keyword next to the declared identifier `keyword_`: two entities / two defined types, one class each
     s = Schema("kwus_e")
     for n, sup in [("class", []), ("class_", ["class"]), ("class__", [])]:
